@@ -25,6 +25,7 @@ func init() {
 type nilCtx struct {
 	p          *Prog
 	nonNilRes  map[*ssa.Function]map[int]bool // function result index proven non-nil
+	nilKeeping map[*ssa.Function]int          // single-result wrapper: result is non-nil whenever parameter i is (nil only for a nil argument)
 	contract   map[string]bool                // link class -> all producers N or E (assumption being checked)
 	derefParam map[*ssa.Function]map[int]bool
 	nonNilPrm  map[*ssa.Parameter]bool // parameter proven non-nil at every module call site
@@ -35,7 +36,9 @@ func newNilCtx(p *Prog) *nilCtx {
 	c := &nilCtx{p: p, nonNilRes: map[*ssa.Function]map[int]bool{}, contract: map[string]bool{}, derefParam: map[*ssa.Function]map[int]bool{}}
 	c.nonNilPrm = map[*ssa.Parameter]bool{}
 	c.nilRetImp = map[*ssa.Function]map[int]bool{}
+	c.nilKeeping = map[*ssa.Function]int{}
 	c.computeNonNilResults()
+	c.computeNilKeeping()
 	c.computeNilRetImplies()
 	c.computeNonNilParams()
 	c.computeDerefParams()
@@ -58,6 +61,9 @@ func (c *nilCtx) computeNonNilResults() {
 		for i := 0; i < res.Len(); i++ {
 			if _, ok := res.At(i).Type().Underlying().(*types.Pointer); ok {
 				m[i] = true // optimistic
+			}
+			if _, ok := res.At(i).Type().Underlying().(*types.Interface); ok {
+				m[i] = true // an error constructor (every return hands back a non-nil error)
 			}
 		}
 		c.nonNilRes[fn] = m
@@ -128,6 +134,9 @@ func (c *nilCtx) nonNil(v ssa.Value, at ssa.Instruction, depth int) bool {
 		if f := x.Common().StaticCallee(); f != nil {
 			if c.nonNilRes[f][0] && f.Signature.Results().Len() == 1 {
 				return true
+			}
+			if i, ok := c.nilKeeping[f]; ok && i < len(x.Common().Args) && c.nonNil(x.Common().Args[i], at, depth+1) {
+				return true // wrap(err): non-nil for a non-nil argument
 			}
 			switch f.String() {
 			case "errors.New", "fmt.Errorf", "context.Background", "context.TODO":
@@ -1034,6 +1043,63 @@ func (c *nilCtx) computeNonNilParams() {
 				if !c.nonNil(s.arg, s.call.(ssa.Instruction), 1) {
 					c.nonNilPrm[prm] = false
 					changed = true
+					break
+				}
+			}
+		}
+	}
+}
+
+// computeNilKeeping: module functions with one nilable result that hand back nil only where one of their nilable
+// parameters is nil (error wrappers that map nil to nil): every return is a proven non-nil value or lies on the
+// parameter's nil side.
+func (c *nilCtx) computeNilKeeping() {
+	for _, fn := range c.p.ModFuncs {
+		if fn.Signature.Results().Len() != 1 || !isNilable(fn.Signature.Results().At(0).Type()) || fn.Blocks == nil {
+			continue
+		}
+		for i, prm := range fn.Params {
+			if !isNilable(prm.Type()) {
+				continue
+			}
+			good, n, viaNil := true, 0, false
+			allInstrs(fn, func(in ssa.Instruction) {
+				r, ok := in.(*ssa.Return)
+				if !ok {
+					return
+				}
+				n++
+				v := rr(r)[0]
+				if guardedNil(prm, r) {
+					viaNil = true
+					return
+				}
+				if guardedNonNil(prm, r) && (sameVar(v, prm) || c.nonNil(v, r, 1)) {
+					return
+				}
+				if c.nonNil(v, r, 1) {
+					return
+				}
+				// `return wrap(x)` of another nil-keeping function on the same parameter, or the parameter itself
+				if sameVar(v, prm) {
+					return
+				}
+				good = false
+			})
+			if good && n > 0 && viaNil {
+				c.nilKeeping[fn] = i
+				break
+			}
+			if good && n > 0 && !viaNil {
+				// never returns nil at all for this parameter: covered by nonNilRes or returns the parameter itself
+				allSelf := true
+				allInstrs(fn, func(in ssa.Instruction) {
+					if r, ok := in.(*ssa.Return); ok && !sameVar(rr(r)[0], prm) && !c.nonNil(rr(r)[0], r, 1) {
+						allSelf = false
+					}
+				})
+				if allSelf {
+					c.nilKeeping[fn] = i
 					break
 				}
 			}
